@@ -1,5 +1,6 @@
 import LentilVerif.Model.Detector
 import LentilVerif.Lemmas.Detector
+import LentilVerif.Gen.Effects
 /-! # C16 — detector chain: right quantum efficiency at every pixel, exact digitisation
 
 Property theorems only (helpers in `Lemmas/Detector.lean`). The model (`Model/Detector.lean`) is the hand model of
@@ -230,5 +231,14 @@ theorem adc_clip_cases (c : K) (g : List K) (x : K) :
   by_cases h : c < x <;> simp only [adcValue, clipSat, h, if_true, if_false] <;> rfl
 
 end adc
+
+/-- input frame untouched (regenerated part): the effect-site scan of the current source (Gen/Effects.lean, see C10) finds no
+in-place write site on any parameter of `adc`, `collect_charge`, `collect_charge_bayer`, `qe_asarray`, and no use of shared state.
+(That NumPy really leaves the frame alone is observed by the correspondence: read-only, byte-snapshotted frames.) -/
+theorem adc_has_no_write_site :
+    (Gen.effTable.filter fun r => ["detector.adc", "detector.collect_charge", "detector.collect_charge_bayer", "detector.qe_asarray"].contains r.fn).map
+        (fun r => (r.fn, r.writes, r.cacheWrites, r.globalWrites, r.globalRng)) =
+      [("detector.adc", [], [], [], false), ("detector.collect_charge", [], [], [], false),
+       ("detector.collect_charge_bayer", [], [], [], false), ("detector.qe_asarray", [], [], [], false)] := by decide +kernel
 
 end Lentil.C16
